@@ -18,7 +18,10 @@ for d in sorted(glob.glob(os.path.join(V, "seeded", "*"))):
             continue
         tier, rc = m[-1]
         res[chk] = {"tier": tier, "exit": int(rc), "violation_lines": txt.count("\nVIOLATION ") + txt.startswith("VIOLATION ")}
-    meta["runs"] = res
+    if not res:
+        continue    # no logs of this session for that seed: keep what meta.json records
+    meta["runs"] = {**meta.get("runs", {}), **res}
+    res = meta["runs"]
     meta["detected_by"] = sorted(c for c, r in res.items() if r["exit"] == 1)
     meta["inconclusive_in"] = sorted(c for c, r in res.items() if r["exit"] == 2)
     meta["not_detected_by"] = sorted(c for c, r in res.items() if r["exit"] == 0)
